@@ -331,6 +331,27 @@ def generate(repo):
         out.append(f"def der_{name} {sig} : K :=\n  {der}\n\n")
         names.append(name)
         meta[name] = dict(params=params, notes=notes)
+    # the table as an enumerated type (so that theorems can do `cases f`) + dispatch for the driver/model
+    out.append("/-- the entries of `ptw_dict` -/\ninductive Fn where\n")
+    for n in names:
+        out.append(f"  | {n}\n")
+    out.append("  deriving DecidableEq, Repr\n\n")
+    out.append("def Fn.ofString (f : String) : Option Fn :=\n  match f with\n")
+    for n in names:
+        out.append(f'  | "{n}" => some .{n}\n')
+    out.append("  | _ => none\n\n")
+    out.append("def Fn.arity (f : Fn) : Nat :=\n  match f with\n")
+    for n in names:
+        out.append(f"  | .{n} => {len(meta[n]['params'])}\n")
+    out.append("\n")
+    for kind in ("val", "hval", "der"):
+        out.append(f"/-- `{kind}` of an entry; parameter lists of the wrong length give 0 (the driver rejects them) -/\n")
+        out.append(f"def Fn.{kind} [Zero K] (f : Fn) (p : List K) (v : K) : K :=\n  match f, p with\n")
+        for n in names:
+            ps = meta[n]["params"]
+            pat = "[" + ", ".join(ps) + "]"
+            out.append(f'  | .{n}, {pat} => {kind}_{n} v{"".join(" " + q for q in ps)}\n')
+        out.append("  | _, _ => 0\n\n")
     # dispatch tables for the driver
     out.append("/-- names of the table, in source order -/\n")
     out.append("def names : List String := [" + ", ".join(f'"{n}"' for n in names) + "]\n\n")
